@@ -49,6 +49,11 @@ variable [Add K] [Mul K] [Sub K] [OfNat K 0] [OfNat K 1]
 /-- `AffineTransform::new(a, b, xoff, d, e, yoff)`: third row `[0, 0, 1]`. -/
 def new (a b xoff d e yoff : K) : Affine K := ⟨a, b, xoff, d, e, yoff, 0, 0, 1⟩
 
+/-- `Self([[..; 3]; 3])`: the tuple constructor applied to an array literal (used by the definitions
+regenerated from the Rust source, `GeoModel/Gen/AffineGen.lean`). -/
+def ofRows (r : (K × K × K) × (K × K × K) × (K × K × K)) : Affine K :=
+  ⟨r.1.1, r.1.2.1, r.1.2.2, r.2.1.1, r.2.1.2.1, r.2.1.2.2, r.2.2.1, r.2.2.2.1, r.2.2.2.2⟩
+
 /-- `AffineTransform::identity` -/
 def identity : Affine K := new 1 0 0 0 1 0
 
